@@ -10,7 +10,7 @@ pub mod collections {
 }
 
 pub mod sync {
-  pub use crate::rt::{Condvar, Mutex, MutexGuard, RwLock, RwLockReadGuard, RwLockWriteGuard};
+  pub use crate::rt::{Condvar, Mutex, MutexGuard, RwLock, RwLockReadGuard, RwLockWriteGuard, WaitTimeoutResult};
   pub use ::std::sync::*;
 }
 pub mod thread {
